@@ -7,6 +7,7 @@ from concurrent.futures import ThreadPoolExecutor
 VERIF = os.path.dirname(os.path.dirname(os.path.abspath(__file__)))
 REPO = os.environ.get('VLARK_REPO', '/repo')
 PY = os.environ.get('VLARK_PY', '/venv/bin/python')
+OUT = os.environ.get('VLARK_OUT', VERIF)      # evidence/ and replays/ go here (mutation self-tests point it elsewhere)
 
 
 def worker_env(extra=None):
@@ -160,7 +161,7 @@ def _main(a, prop, mod, t0, tmp):
     by_mech = {}
     for v in real:
         by_mech.setdefault(v['mechanism'], []).append(v)
-    rdir = os.path.join(VERIF, 'replays', prop)
+    rdir = os.path.join(OUT, 'replays', prop)
     shutil.rmtree(rdir, ignore_errors=True)      # replay files of earlier runs are stale
     n = 0
     for mech, vs in sorted(by_mech.items()):
@@ -213,8 +214,8 @@ def _main(a, prop, mod, t0, tmp):
     ev = {'property_id': prop, 'tier': tier, 'seed': a.seed, 'level': level, 'coverage': cov,
           'assumptions': getattr(mod, 'ASSUMPTIONS', []), 'wall_s': round(wall, 2),
           'violations': len(confirmed)}
-    os.makedirs(os.path.join(VERIF, 'evidence'), exist_ok=True)
-    with open(os.path.join(VERIF, 'evidence', prop + '.json'), 'w') as f:
+    os.makedirs(os.path.join(OUT, 'evidence'), exist_ok=True)
+    with open(os.path.join(OUT, 'evidence', prop + '.json'), 'w') as f:
         json.dump(ev, f, indent=1, default=repr)
 
     print('%s tier=%s seed=%d evaluations=%d distinct_nontrivial=%d wall=%.1fs' % (prop, tier, a.seed, evaluations, len(nontrivial), wall))
